@@ -218,6 +218,11 @@ func newWithParams(index, sign int, a uint, k *big.Int, split SquareSplitter, nS
 	if sign != 1 && sign != -1 {
 		return nil, ErrUnsupportedSign
 	}
+	if uint64(a) > math.MaxInt64 {
+		// a is used below as a signed 64 bit number; a larger factor would wrap around to a negative
+		// one, so that the proof would be about another statement than the one it reports
+		return nil, errors.New("factor too large")
+	}
 
 	var exp *big.Int
 	if sign == 1 {
